@@ -19,7 +19,7 @@ WRAPS = ("pthread_mutex_lock pthread_mutex_unlock pthread_cond_wait pthread_cond
          "nanosleep epoll_wait nni_random sendmsg send writev readv "
          "nni_atomic_flag_test_and_set nni_atomic_dec_nv nni_atomic_inc nni_atomic_dec "
          "nni_atomic_cas nni_atomic_swap_bool nni_atomic_get_bool nni_atomic_get "
-         "nni_alloc nni_zalloc nni_free").split()
+         "nni_alloc nni_zalloc nni_free nni_plat_pipe_raise nni_plat_pipe_clear").split()
 
 # thorough tiers that need more than the default 1500 s wall clock to complete their bounds
 THOROUGH_DEADLINE_S = {"C05": 2700, "C10": 2700}
